@@ -43,8 +43,40 @@ func c03EmptyTable(r *Run) {
 	}
 }
 
+// c03SourceAnywhere: "except on source features after slicing" holds for EVERY source feature of the
+// table, wherever it stands — a file may list a gene before its source, or several part-length
+// sources in position order (seeded change W28-1: only the leading run of sources was completed).
+func c03SourceAnywhere(r *Run) {
+	res := []byte("acgtacgtacgtacgtacgtacgtacgtacgtacgtacgtacgtacgtacgtacgtacgt")
+	tabs := []gts.FeatureSlice{
+		{{Key: "gene", Loc: gts.Range(4, 40), Props: gts.Props{}}, {Key: "source", Loc: gts.Range(0, 60), Props: gts.Props{}}},
+		{{Key: "source", Loc: gts.Range(0, 30), Props: gts.Props{}}, {Key: "gene", Loc: gts.Range(4, 40), Props: gts.Props{}}, {Key: "source", Loc: gts.Range(30, 60), Props: gts.Props{}}},
+		{{Key: "gene", Loc: gts.Range(4, 40), Props: gts.Props{}}, {Key: "source", Loc: gts.Range(0, 60).Complement(), Props: gts.Props{}}, {Key: "CDS", Loc: gts.Range(10, 20), Props: gts.Props{}}, {Key: "source", Loc: gts.Join(gts.Range(0, 25), gts.Range(30, 60)), Props: gts.Props{}}},
+	}
+	for ti, tab := range tabs {
+		for _, w := range [][2]int{{10, 30}, {0, 45}, {20, 60}, {35, 50}, {50, 10}} {
+			line := fmt.Sprintf("seq.slice.sources table=%d %d %d", ti, w[0], w[1])
+			crumb(line)
+			out := guarded(func() string {
+				for _, g := range gts.Slice(gts.New(nil, append(gts.FeatureSlice{}, tab...), res), w[0], w[1]).Features() {
+					if g.Key == "source" && anyPartial(g.Loc) {
+						return encLoc(g.Loc)
+					}
+				}
+				return "ok"
+			})
+			r.count("seq.slice/source-anywhere")
+			r.eval(line, true)
+			if out != "ok" {
+				r.fail(Failure{Oracle: "slice: no source feature becomes partial, wherever it stands in the table", Op: line, Got: out})
+			}
+		}
+	}
+}
+
 func c03Topology(r *Run) {
 	c03EmptyTable(r)
+	c03SourceAnywhere(r)
 	for _, L := range []int{1, 2, 7, 24} {
 		res := make([]byte, L)
 		for i := range res {
